@@ -271,7 +271,7 @@ class Shard:
 
 def san_env(flv, logdir):
     env = dict(os.environ)
-    env['ASAN_OPTIONS'] = 'abort_on_error=1:detect_leaks=1:allocator_may_return_null=1:quarantine_size_mb=8:handle_abort=1:detect_stack_use_after_return=0'
+    env['ASAN_OPTIONS'] = 'abort_on_error=1:detect_leaks=1:leak_check_at_exit=0:allocator_may_return_null=1:quarantine_size_mb=8:handle_abort=1:detect_stack_use_after_return=0'
     env['UBSAN_OPTIONS'] = 'print_stacktrace=1:halt_on_error=1'
     env['LSAN_OPTIONS'] = 'exitcode=23'
     env['TSAN_OPTIONS'] = 'halt_on_error=0:second_deadlock_stack=1:exitcode=0:log_path=%s' % os.path.join(logdir, 'tsan')
